@@ -67,7 +67,7 @@ def St.init : St :=
 /-- summary of an `AdaptiveReplicationManager`: `stats()` (tracked keys, current hot keys, promotions,
     demotions) and `get_hot_key_updates()` sorted by key -/
 def showAd (m : Adaptive.Mgr) : String :=
-  s!"ad tracked={m.det.counts.length} hot={m.overrides.length} prom={m.promotions} dem={m.demotions} ov="
+  s!"ad rf={m.baseRf}/{m.hotRf} tracked={m.det.counts.length} hot={m.overrides.length} prom={m.promotions} dem={m.demotions} ov="
     ++ ",".intercalate (m.overrides.map fun p => s!"{showKey p.1}:{p.2}")
 
 def St.ring (st : St) : HashRing := st.vring.ring
